@@ -48,48 +48,51 @@ theorem setUserOption_existing_invalid (s : Store) (k : Key) (v : Val) (id : Nat
 section loop
 variable (k : Key) (id : Nat)
 
-/-- a loop whose body sets `k` when the entry is for `k` and otherwise leaves `k` alone: if it completes,
-`k` holds the (cleaned) value of the last entry for `k`, or what it held before -/
-theorem loop_value (hm : k.machine = .host) (hn : (k.name == sPrefix) = false)
+/-- a loop whose body sets `k` when the entry is addressed `ka` (`ka = k`, or the spelling without subproject of a
+top-level project option `k = :name`) and otherwise leaves `k` alone: if it completes, `k` holds the (cleaned) value
+of the last entry for `ka`, or what it held before.  `opts` is the key table, which the loop never changes. -/
+theorem loop_value (ka : Key) (hka : ka.name = k.name) (opts : List (Key × Nat))
+    (hm : k.machine = .host) (hn : (k.name == sPrefix) = false)
     (hbt : (k.name == sBuildtype) = false) (step : Key × Val → M Unit)
-    (hstep : ∀ v, step (k, v) = (do let _ ← setUserOption k v true; M.pure ()))
+    (hstep : ∀ v, step (ka, v) = (do let _ ← setUserOption ka v true; M.pure ()))
+    (hrw : ∀ s v, s.options = opts → setUserOption ka v true s = setUserOption k v true s)
     (hfr : ∀ kv : Key × Val, kv.1.name ≠ k.name → Fr k id (step kv)) :
-    ∀ (l : Dict) (s s' : Store) (o : Obj), Good k id s o →
-      (∀ kv ∈ l, kv.1 = k ∨ kv.1.name ≠ k.name) →
+    ∀ (l : Dict) (s s' : Store) (o : Obj), Good k id s o → s.options = opts →
+      (∀ kv ∈ l, kv.1 = ka ∨ kv.1.name ≠ k.name) →
       M.forEach step l s = (.ok (), s') →
-      ∃ o', Good k id s' o' ∧ o'.kind = o.kind ∧
-        o'.value = (match alast k l with | some v => cleaned o.kind v | none => o.value) := by
+      ∃ o', Good k id s' o' ∧ s'.options = opts ∧ o'.kind = o.kind ∧
+        o'.value = (match alast ka l with | some v => cleaned o.kind v | none => o.value) := by
   intro l
   induction l with
   | nil =>
-    intro s s' o g _ h
-    simp [M.forEach, M.pure] at h; subst h; exact ⟨o, g, rfl, rfl⟩
+    intro s s' o g ho _ h
+    simp [M.forEach, M.pure] at h; subst h; exact ⟨o, g, ho, rfl, rfl⟩
   | cons kv r ih =>
     obtain ⟨key, v⟩ := kv
-    intro s s' o g hl h
-    have hrest : ∀ kv ∈ r, kv.1 = k ∨ kv.1.name ≠ k.name := fun kv hkv => hl kv (by simp [hkv])
+    intro s s' o g ho hl h
+    have hrest : ∀ kv ∈ r, kv.1 = ka ∨ kv.1.name ≠ k.name := fun kv hkv => hl kv (by simp [hkv])
     simp only [M.forEach, M.bind] at h
     rcases hl (key, v) (by simp) with hkk | hkn
-    · -- the entry is for `k`
+    · -- the entry addresses `k`
       simp only at hkk; subst hkk
       rw [hstep v] at h
       cases hv : validate o.kind v with
       | error e =>
-        have := setUserOption_existing_invalid s key v id o e hm hn g.nb g.opt g.obj hv
-        simp [Bind.bind, M.bind, this] at h
+        have := setUserOption_existing_invalid s k v id o e hm hn g.nb g.opt g.obj hv
+        simp [Bind.bind, M.bind, hrw s v ho, this] at h
       | ok w =>
-        have hset := setUserOption_existing s key v w id o hm hn hbt g.nb g.opt g.obj hv
-        simp only [Bind.bind, M.bind, hset, M.pure] at h
+        have hset := setUserOption_existing s k v w id o hm hn hbt g.nb g.opt g.obj hv
+        simp only [Bind.bind, M.bind, hrw s v ho, hset, M.pure] at h
         let o1 : Obj := { o with value := w, yielding := false }
-        have g1 : Good key id ((s.updObj id (fun o => { o with value := w })).updObj id
+        have g1 : Good k id ((s.updObj id (fun o => { o with value := w })).updObj id
             (fun o => { o with yielding := false })) o1 := by
           refine ⟨by simp [g.opt], ?_, ?_, ?_, by simp [g.aug], rfl⟩
           · have h1 := updObj_heap_same s id (fun o => { o with value := w }) o g.obj
             exact updObj_heap_same _ id (fun o => { o with yielding := false }) _ h1
           · intro key' i hk' hn'; simp at hk'; exact g.own key' i hk' hn'
           · have := g.nb; simpa [Store.isBuiltin] using this
-        obtain ⟨o', g', hk', hv'⟩ := ih _ s' o1 g1 hrest h
-        refine ⟨o', g', hk', ?_⟩
+        obtain ⟨o', g', ho', hk', hv'⟩ := ih _ s' o1 g1 (by simp [ho]) hrest h
+        refine ⟨o', g', ho', hk', ?_⟩
         rw [hv']
         simp only [alast]
         cases alast key r with
@@ -105,12 +108,12 @@ theorem loop_value (hm : k.machine = .host) (hn : (k.name == sPrefix) = false)
         | error e => simp at h
         | ok u =>
           simp only at h
-          obtain ⟨o', g', hk', hv'⟩ := ih s1 s' o (g.ofSame hs) hrest h
-          refine ⟨o', g', hk', ?_⟩
+          obtain ⟨o', g', ho', hk', hv'⟩ := ih s1 s' o (g.ofSame hs) (by rw [hs.2.1]; exact ho) hrest h
+          refine ⟨o', g', ho', hk', ?_⟩
           rw [hv']
-          have hne : ¬ key = k := fun e => hkn (by rw [e])
+          have hne : ¬ key = ka := fun e => hkn (by rw [e]; exact hka)
           simp only [alast, hne, ↓reduceIte]
-          cases alast k r <;> rfl
+          cases alast ka r <;> rfl
 end loop
 
 
@@ -276,17 +279,82 @@ theorem initTop_value (k : Key) (id : Nat) (s s' : Store) (o : Obj) (pdo cmd mf 
     | error e => simp at hrun
     | ok u =>
       simp only at hrun
-      obtain ⟨o1, g1, hk1, hv1⟩ := loop_value k id hm hn hbt stepPdo (stepPdo_k k hm hs)
-        (fun kv hne => Fr.stepPdo k id kv hne hnp hd) (buildtypeFirst pdo) s s1 o g
+      obtain ⟨o1, g1, ho1, hk1, hv1⟩ := loop_value k id k rfl s.options hm hn hbt stepPdo (stepPdo_k k hm hs)
+        (fun _ _ _ => rfl)
+        (fun kv hne => Fr.stepPdo k id kv hne hnp hd) (buildtypeFirst pdo) s s1 o g rfl
         (fun kv hkv => hp kv (mem_buildtypeFirst hkv)) hr1
       have hmem : ∀ kv ∈ buildtypeFirst mf ++ cmd, kv.1 = k ∨ kv.1.name ≠ k.name := by
         intro kv hkv
         rcases List.mem_append.mp hkv with h | h
         · exact hf kv (mem_buildtypeFirst h)
         · exact hc kv h
-      obtain ⟨o2, g2, hk2, hv2⟩ := loop_value k id hm hn hbt stepMC (stepMC_k k hm hs)
-        (fun kv hne => Fr.stepMC k id kv hne hnp hd) (buildtypeFirst mf ++ cmd) s1 s' o1 g1 hmem hrun
+      obtain ⟨o2, g2, _, hk2, hv2⟩ := loop_value k id k rfl s.options hm hn hbt stepMC (stepMC_k k hm hs)
+        (fun _ _ _ => rfl)
+        (fun kv hne => Fr.stepMC k id kv hne hnp hd) (buildtypeFirst mf ++ cmd) s1 s' o1 g1 ho1 hmem hrun
       rw [g2.value hm, hv2, alast_append, alast_buildtypeFirst k mf hbt, hk1, hv1, alast_buildtypeFirst k pdo hbt]
       cases alast k cmd <;> cases alast k mf <;> cases alast k pdo <;> rfl
+
+/-! ## the same for a project option of the top-level project: `-Dopt` / `opt=v` address `:opt` -/
+
+/-- `set_user_option(opt, v)` for a name that is only registered as the top-level project's option `:opt` (no
+global option of that name; not a compiler/base/backend name, which would be parked as pending) is
+`set_user_option(:opt, v)` -/
+theorem setUserOption_via_root (s : Store) (n : Str) (v : Val) (id : Nat)
+    (hr : alookup (⟨n, some [], .host⟩ : Key) s.options = some id)
+    (hg : alookup (⟨n, none, .host⟩ : Key) s.options = none)
+    (hpend : acceptAsPending ⟨n, none, .host⟩ true = false) :
+    setUserOption ⟨n, none, .host⟩ v true s = setUserOption ⟨n, some [], .host⟩ v true s := by
+  have h1 : ahas (⟨n, none, .host⟩ : Key) s.options = false := by simp [ahas, hg]
+  have h2 : ahas (⟨n, some [], .host⟩ : Key) s.options = true := by simp [ahas, hr]
+  simp [setUserOption, Bind.bind, M.bind, M.get, Key.isForBuild, h1, h2, hpend, Key.asRoot]
+
+/-- **top-level precedence for a project option declared by the top-level project, through the whole call, for
+arbitrary dicts and an arbitrary store**: `kr = :n` is the registered option, the sources address it as `n`
+(`-Dn=v`, `n = v` in a machine file's `[project options]`, `'n=v'` in `default_options`).  If the call completes,
+`:n` holds the cleaned value of the first source that gives it: command line, machine file,
+`project(default_options)`, else what it held before (its declared default). -/
+theorem initTop_value_project (n : Str) (id : Nat) (s s' : Store) (o : Obj) (pdo cmd mf : Dict)
+    (hn : (n == sPrefix) = false) (hbt : (n == sBuildtype) = false)
+    (hd : n ≠ sDebug ∧ n ≠ sOptimization)
+    (hnp : (Tables.nopfxTable.map (·.1)).contains n = false)
+    (hpend : acceptAsPending ⟨n, none, .host⟩ true = false)
+    (hg : alookup (⟨n, none, .host⟩ : Key) s.options = none)
+    (g : Good ⟨n, some [], .host⟩ id s o)
+    (h1 : NoPrefix pdo) (h2 : NoPrefix cmd) (h3 : NoPrefix mf)
+    (hp : ∀ kv ∈ pdo, kv.1 = ⟨n, none, .host⟩ ∨ kv.1.name ≠ n)
+    (hc : ∀ kv ∈ cmd, kv.1 = ⟨n, none, .host⟩ ∨ kv.1.name ≠ n)
+    (hf : ∀ kv ∈ mf, kv.1 = ⟨n, none, .host⟩ ∨ kv.1.name ≠ n)
+    (hrun : initTop pdo cmd mf s = (.ok (), s')) :
+    getValueFor s' ⟨n, some [], .host⟩ = .ok
+      (match ofirst (alast ⟨n, none, .host⟩ cmd) (ofirst (alast ⟨n, none, .host⟩ mf) (alast ⟨n, none, .host⟩ pdo)) with
+       | some v => cleaned o.kind v
+       | none => o.value) := by
+  let kr : Key := ⟨n, some [], .host⟩
+  let kg : Key := ⟨n, none, .host⟩
+  have hrw : ∀ (st : Store) (v : Val), st.options = s.options →
+      setUserOption kg v true st = setUserOption kr v true st := by
+    intro st v ho
+    exact setUserOption_via_root st n v id (by rw [ho]; exact g.opt) (by rw [ho]; exact hg) hpend
+  rw [initTop_eq pdo cmd mf h1 h2 h3 s] at hrun
+  simp only [M.bind] at hrun
+  cases hr1 : M.forEach stepPdo (buildtypeFirst pdo) s with
+  | mk r1 s1 =>
+    rw [hr1] at hrun
+    cases r1 with
+    | error e => simp at hrun
+    | ok u =>
+      simp only at hrun
+      obtain ⟨o1, g1, ho1, hk1, hv1⟩ := loop_value kr id kg rfl s.options rfl hn hbt stepPdo (stepPdo_k kg rfl rfl)
+        hrw (fun kv hne => Fr.stepPdo kr id kv hne hnp hd) (buildtypeFirst pdo) s s1 o g rfl
+        (fun kv hkv => hp kv (mem_buildtypeFirst hkv)) hr1
+      have hmem : ∀ kv ∈ buildtypeFirst mf ++ cmd, kv.1 = kg ∨ kv.1.name ≠ kr.name := by
+        intro kv hkv
+        rcases List.mem_append.mp hkv with h | h
+        · exact hf kv (mem_buildtypeFirst h)
+        · exact hc kv h
+      obtain ⟨o2, g2, _, hk2, hv2⟩ := loop_value kr id kg rfl s.options rfl hn hbt stepMC (stepMC_k kg rfl rfl)
+        hrw (fun kv hne => Fr.stepMC kr id kv hne hnp hd) (buildtypeFirst mf ++ cmd) s1 s' o1 g1 ho1 hmem hrun
+      rw [g2.value rfl, hv2, alast_append, alast_buildtypeFirst kg mf hbt, hk1, hv1, alast_buildtypeFirst kg pdo hbt]
+      cases alast kg cmd <;> cases alast kg mf <;> cases alast kg pdo <;> rfl
 
 end MesonModel.Options
